@@ -77,7 +77,12 @@ def _ctx():
         "bind_src",
         ANY,
         H,
-        lambda h, i: ("bind", h, [(1, ("opt", _q(i, "b"), ("val", "q1"))), (2, ("val", "two"))], ("val", "other")),
+        lambda h, i: (
+            "bind",
+            h,
+            [(1, ("opt", _q(i, "b"), ("val", "q1"))), (2, ("ds", f"b2{i}", {"params": []}))],
+            ("ds", f"bo{i}", {"params": []}),
+        ),
         lambda i: [(_q(i, "b"), [ABSENT, "Q"])],
     )
     add(
@@ -99,8 +104,13 @@ def _ctx():
         "switch_branch",
         ANY,
         same,
-        lambda h, i: ("switch", ("opt", _q(i, "w"), ("val", "k")), [("k", h)], ("val", "dflt")),
-        lambda i: [(_q(i, "w"), [ABSENT, "zz"])],
+        lambda h, i: (
+            "switch",
+            ("opt", _q(i, "w"), ("val", "k")),
+            [("k", h), ("j", ("ds", f"sj{i}", {"params": []}))],
+            ("ds", f"sd{i}", {"params": []}),
+        ),
+        lambda i: [(_q(i, "w"), [ABSENT, "j", "zz"])],
     )
     add(
         "switch_dflt",
@@ -120,8 +130,13 @@ def _ctx():
         "case_branch",
         ANY,
         same,
-        lambda h, i: ("case", ("opt", _q(i, "c"), ("val", 1)), [(("fn", "p_eq:1"), h)], ("val", "else")),
-        lambda i: [(_q(i, "c"), [ABSENT, 3])],
+        lambda h, i: (
+            "case",
+            ("opt", _q(i, "c"), ("val", 1)),
+            [(("fn", "p_eq:1"), h), (("fn", "p_eq:3"), ("ds", f"cj{i}", {"params": []}))],
+            ("ds", f"co{i}", {"params": []}),
+        ),
+        lambda i: [(_q(i, "c"), [ABSENT, 3, 4])],
     )
     add(
         "case_cond",
@@ -136,12 +151,12 @@ def _ctx():
         lambda h, i: ("case", ("opt", _q(i, "o"), ("val", 3)), [(("fn", "p_eq:1"), ("val", "is1"))], h),
         lambda i: [(_q(i, "o"), [ABSENT, 1])],
     )
-    add("coalesce_first", ANY, same, lambda h, i: ("coalesce", [h, ("val", "fallback")]))
+    add("coalesce_first", ANY, same, lambda h, i: ("coalesce", [h, ("ds", f"cl{i}", {"params": []})]))
     add(
         "coalesce_second",
         ANY,
         same,
-        lambda h, i: ("coalesce", [("opt", _q(i, "f")), h]),
+        lambda h, i: ("coalesce", [("opt", _q(i, "f")), h, ("ds", f"cm{i}", {"params": []})]),
         lambda i: [(_q(i, "f"), [ABSENT, "first"])],
     )
     add("list", ANY, Jl, lambda h, i: ("list", [("val", 0), h]))
@@ -187,9 +202,13 @@ def _ctx():
         lambda h, i: (
             "ds",
             f"do{i}",
-            {"params": [("val", 0)], "dispatch": ("optkey", _q(i, "d")), "overloads": [("k", h)]},
+            {
+                "params": [("val", 0)],
+                "dispatch": ("optkey", _q(i, "d")),
+                "overloads": [("k", h), ("j", ("ds", f"oj{i}", {"params": []}))],
+            },
         ),
-        lambda i: [(_q(i, "d"), [ABSENT, "k", "zz"])],
+        lambda i: [(_q(i, "d"), [ABSENT, "k", "j", "zz"])],
     )
     add(
         "ds_callback",
